@@ -8,6 +8,8 @@ import itertools
 
 
 def one(N, copyable=True, nothrow=True, maxlen=4, maxcnt=2, kinds=(0, 1, 3, 4), maxcap=16, allocids=(0,), **kw):
+    if not copyable:
+        kinds = (5,)       # move-only elements: ranges can only be consumed through move_iterators
     d = dict(NA=N, NB=N, Profile='one', MaxLen=maxlen, MaxCnt=maxcnt, MaxCap=maxcap, Copyable=copyable,
              NothrowMove=nothrow, Kinds=list(kinds), AllocIds=list(allocids))
     d.update(kw)
@@ -55,7 +57,8 @@ ALL_TRAITS = list(itertools.product((0, 1), repeat=4))     # (pocca, pocma, pocs
 
 
 def job(mc, dr, fmode, n=None, tags=(), label=''):
-    return dict(mc=mc, drv=dr, fmode=fmode, max_stims=n, tags=set(tags), label=label)
+    return dict(mc=mc, drv=dr, fmode=fmode, max_stims=n, tags=set(tags), label=label,
+                l2=('one' in tags and 'tracked' in tags and 'fault' in tags and 'san' not in tags))
 
 
 def regress_jobs():
